@@ -1103,3 +1103,12 @@ Qed.
 Lemma ex_system_once : forall maxr cmid0 smid0 acts,
   ex_P_once (ex_sys_trace (ex_cfg_guarded maxr) (ex_sys_init cmid0 smid0) acts).
 Proof. intros. apply (ex_system_safe maxr cmid0 smid0 acts). Qed.
+
+(* the acceptor accepts every behaviour of the guarded system *)
+Theorem ex_system_accepted : forall maxr cmid0 smid0 acts,
+  accepts_c07 (ex_sys_trace (ex_cfg_guarded maxr) (ex_sys_init cmid0 smid0) acts) = true.
+Proof.
+  intros maxr cmid0 smid0 acts. unfold ex_sys_trace, accepts_c07, ex_judge.
+  pose proof (ex_inv_run maxr acts _ _ 0 (ex_basic_init cmid0 smid0) I) as H. cbn zeta in H.
+  destruct H as [m' [sc' [P _]]]. apply Z.eqb_eq. eapply ex_path_judge. exact P.
+Qed.
